@@ -326,42 +326,8 @@ func c09(c *core.Check) {
 
 // c09Spans: a table cell spans at least one column (HTML 5: colspan is clamped to >= 1), while rowspan may be 0.
 func c09Spans(c *core.Check) {
-	p := c.Prog
-	r := c.Rule("R5", "NewTableCellBox reads colspan with the lower bound 1 and rowspan with the lower bound 0 (HTML 5): a cell that spans no column would share its grid slot with the next cell", 2)
-	fn := p.Fn("html/boxes", "NewTableCellBox")
-	if fn == nil {
-		r.Anchor("html/boxes.NewTableCellBox")
-		return
-	}
-	want := map[string]int64{"Colspan": 1, "Rowspan": 0}
-	seen := map[string]bool{}
-	core.Instrs(fn, func(in ssa.Instruction) {
-		st, ok := in.(*ssa.Store)
-		if !ok {
-			return
-		}
-		fa, ok := st.Addr.(*ssa.FieldAddr)
-		if !ok {
-			return
-		}
-		w, isSpan := want[core.FieldName(fa)]
-		if !isSpan {
-			return
-		}
-		seen[core.FieldName(fa)] = true
-		got := int64(-99)
-		if call, ok := st.Val.(*ssa.Call); ok && len(call.Call.Args) == 2 {
-			if k, ok := core.ConstInt(call.Call.Args[1]); ok {
-				got = k
-			}
-		}
-		r.Cond(got == w, "NewTableCellBox | "+core.FieldName(fa)+" lower bound", p.Pos(st.Pos()), fmt.Sprintf("minimum %d", got), fmt.Sprintf("the attribute is read with the lower bound %d, HTML 5 gives %d", got, w))
-	})
-	for f := range want {
-		if !seen[f] {
-			r.Fail("NewTableCellBox | "+f+" lower bound", p.Pos(fn.Pos()), "the field is not assigned")
-		}
-	}
+	r := c.Rule("R5", "NewTableCellBox reads colspan within [1, 1000] and rowspan within [0, 65534] (HTML): a cell that spans no column would share its grid slot with the next cell, and the grid is allocated with the spans as sizes", 4)
+	spanBounds(c, r)
 }
 
 // c09ClassInterfaces extracts from BoxType.IsInstance the interface each class constant stands for.
